@@ -166,10 +166,14 @@ theorem SameMeta.refl (job : Job) : SameMeta job job := ⟨rfl, rfl, rfl⟩
 theorem SameMeta.trans {a b c : Job} (h1 : SameMeta a b) (h2 : SameMeta b c) : SameMeta a c :=
   ⟨h2.id.trans h1.id, h2.isOpen.trans h1.isOpen, h2.maxFails.trans h1.maxFails⟩
 
+/-- what a `started` report does to the state of the task -/
+def startedSt : Option TState → Option TState
+  | some .waiting => some .running
+  | o => o
+
 theorem setRunning_spec {job job' : Job} {t : Nat} (h : job.setRunning t = .ok job') :
     SameMeta job job' ∧ (lookup job.tasks t).isSome ∧
-    ∀ x, lookup job'.tasks x = if x = t then
-        (match lookup job.tasks t with | some .waiting => some .running | o => o) else lookup job.tasks x := by
+    ∀ x, lookup job'.tasks x = if x = t then startedSt (lookup job.tasks t) else lookup job.tasks x := by
   unfold Job.setRunning at h
   split at h
   · cases h
@@ -179,7 +183,7 @@ theorem setRunning_spec {job job' : Job} {t : Nat} (h : job.setRunning t = .ok j
     intro x
     simp only [lookup_setState, hl]
     by_cases hx : x = t
-    · subst hx; simp [hl]
+    · subst hx; simp [hl, startedSt]
     · simp [hx]
   · rename_i st hne hl
     cases h
